@@ -1624,7 +1624,11 @@ def c18_obs(case, im):
         re_ = "json:" + canon_json_bytes(bytes.fromhex(re_[5:]) if re_[5:] != "-" else b"")
     elif re_.startswith("marshalerr:"):
         re_ = "marshalerr"
-    # (the response the driver's stand-in handler returns is its own choice among the documented ones: responses are compared by the RV lines)
+    # (the response the driver's stand-in handler returns is its own choice among the documented ones — which one it
+    #  picks depends on which responses are components in this variant: once the handler is reached the status is the
+    #  stand-in's, not the generated code's; responses are compared by the RV lines)
+    if any(e.startswith("H") for e in kv.get("trace", "-").split(";")) and st not in ("PANIC", "CRASH"):
+        st = "handler"
     return ("req", st, kv.get("wh"), parse, re_)
 
 
